@@ -85,6 +85,7 @@ var corpus = []string{
 	"import notfound/*",
 	"import notfound/file.conf",
 	"localhost\ndir1 {$VERIF_C10_A}\n",
+	"localhost\ndir1 {$VERIF_C10_S} x\n",
 	"{$VERIF_C10_A}:1234 {\n dir1 {%VERIF_C10_B%} {$VERIF_C10_U}\n}",
 	"(common) {\n gzip foo\n errors stderr\n}\nhttp://example.com {\n import common\n}\n",
 	"(common) {\n gzip foo\n}\n(common) {\n gzip bar\n}\n",
